@@ -21,8 +21,29 @@
 
 static struct event_base *hc_base;
 static int hc_idle_hit;
+static int hc_stop;                 /* set by a harness callback that abandons the loop */
 static long hc_ready_total;
 static int hc_refused_fd = -1, hc_refused_port;
+
+/* AddressSanitizer in recover mode (binary built with -fsanitize-recover=address): a memory error is
+ * reported, counted here and turned into a keyed failure by the harness at the end of the execution, so
+ * that one known memory-safety finding does not stop the exploration of the remaining histories. */
+#include <sanitizer/asan_interface.h>
+static int hc_asan_errors; static char hc_asan_desc[64]; static const char *hc_asan_ctx = "";
+const char *__asan_default_options(void) { return "halt_on_error=0"; }
+void __asan_on_error(void)
+{
+	if (!hc_asan_errors++) snprintf(hc_asan_desc, sizeof hc_asan_desc, "%s", __asan_get_report_description());
+}
+/* report ASan errors seen since the last call; ctx names what the harness was doing (stable, part of the key) */
+static void hc_asan_check(const char *prefix)
+{
+	if (!hc_asan_errors) return;
+	char key[200];
+	snprintf(key, sizeof key, "%s/asan:%s/%s", prefix, hc_asan_desc, hc_asan_ctx[0] ? hc_asan_ctx : "unattributed");
+	mc_fail(key, "AddressSanitizer reported %d error(s), first: %s (see the replay output for the stack)", hc_asan_errors, hc_asan_desc);
+	hc_asan_errors = 0; hc_asan_ctx = "";
+}
 
 static void hc_logcb(int sev, const char *msg) { (void)sev; (void)msg; }
 static void hc_idle(void) { hc_idle_hit = 1; event_base_loopbreak(hc_base); }
@@ -58,6 +79,7 @@ static void hc_exec_begin(void)
 	vclock_postwait_hook = hc_postwait;
 	vclock_block_hook = NULL;
 	hc_idle_hit = 0;
+	hc_stop = 0;
 	hc_base = event_base_new();
 	if (!hc_base) { mc_fail("harness:event_base_new", "failed"); abort(); }
 }
@@ -83,7 +105,7 @@ static void hc_run(void)
 	for (int i = 0; i < 200; i++) {
 		hc_ready_total = 0;
 		event_base_loop(hc_base, EVLOOP_NONBLOCK);
-		if (!hc_ready_total) return;
+		if (!hc_ready_total || hc_stop) return;
 	}
 	mc_fail("harness:not-quiescent", "loop still busy after 200 non-blocking rounds");
 }
@@ -94,7 +116,7 @@ static void hc_run_timers(int max)
 		hc_idle_hit = 0;
 		int r = event_base_loop(hc_base, EVLOOP_ONCE);
 		hc_run();
-		if (r == 1 || hc_idle_hit) return;
+		if (r == 1 || hc_idle_hit || hc_stop) return;
 	}
 }
 
